@@ -232,8 +232,8 @@ Theorem imp_bed_Reader_stop_ok fuel s : (length s + 2 < fuel)%nat ->
   exists st, imp_bed_Reader_stop p fuel (Stream s tc None) = Ret (st, take_stop p (map bed_item (Bed.decode s t))).
 Proof.
   intros Hf. unfold imp_bed_Reader_stop. cbv zeta.
-  change (go_while fuel _ _ (Imp_bed_reader 0, [], ?st))
-    with (go_while fuel (fun _ => Ret true) (ros_body fuel) (rdr 0, [], st)).
+  timeout 120 (change (go_while fuel _ _ (Imp_bed_reader 0, [], ?st))
+    with (go_while fuel (fun _ => Ret true) (ros_body fuel) (rdr 0, [], st))).
   destruct (ros_loop fuel (length s) s 0%nat [] fuel (le_n _)) as (st & Hst); [lia|lia| |].
   { unfold may_go. cbn. lia. }
   rewrite Hst. exists st. reflexivity.
@@ -353,7 +353,7 @@ Theorem imp_fasta_iter_stop_ok fuel inp : (length inp + 2 < fuel)%nat ->
              = Ret (st, take_stop p (map (fa_item t) (Fasta.decode inp t))).
 Proof.
   intros Hf. unfold imp_fastard_reader_iter_stop, Fasta.decode. cbv zeta.
-  change (go_while fuel _ _ ([], ?s)) with (go_while fuel (fun _ => Ret true) (fis_body fuel) ([], s)).
+  timeout 120 (change (go_while fuel _ _ ([], ?s)) with (go_while fuel (fun _ => Ret true) (fis_body fuel) ([], s))).
   destruct (fis_loop fuel (S (length inp)) fuel inp []) as (st & Hst); try lia.
   { unfold may_go. cbn. lia. }
   exists st. exact Hst.
@@ -428,7 +428,7 @@ Theorem imp_fastq_iter_stop_ok fuel cur (toks : list bytes) : (length toks + 1 <
     /\ Forall2 fq_item_ok (Fastq.decode_toks t toks) out.
 Proof.
   intros Hf. unfold imp_fastqrd_reader_iter_stop. cbv zeta.
-  change (go_while fuel _ _ ([], ?s)) with (go_while fuel (fun _ => Ret true) fqis_body ([], s)).
+  timeout 120 (change (go_while fuel _ _ ([], ?s)) with (go_while fuel (fun _ => Ret true) fqis_body ([], s))).
   destruct (fqis_loop (length toks) toks cur fuel [] (le_n _) Hf) as (s' & out' & Hl & Hfa).
   { unfold may_go. cbn. lia. }
   exists s', out'. split; [exact Hl | exact Hfa].
@@ -549,7 +549,7 @@ Proof.
   destruct (Newick.decode_loop o (S (length s)) s tm []) as [items| |]; auto.
   destruct H as (st & h' & out & E & HF & HK); try lia; [apply keeps_refl | constructor | unfold may_go; cbn; lia |].
   exists st, h', out. split; [|auto]. unfold imp_newickrd_Reader_stop. cbv zeta.
-  change (go_while fuel _ _ ?x) with (go_while fuel (fun _ => Ret true) (nrs_body fuel) x).
+  timeout 120 (change (go_while fuel _ _ ?x) with (go_while fuel (fun _ => Ret true) (nrs_body fuel) x)).
   match goal with |- after ?m ?f = _ =>
     assert (E' : forall m' : res nr_state nr_result, m' = Ret (st, (h', out)) -> after m' f = Ret (st, (h', out)))
       by (intros m' ->; reflexivity) end.
@@ -674,8 +674,8 @@ Theorem imp_traverse_stop_ok fuel pre t l : (2 * Newick.size t + 2 < fuel)%nat -
   imp_newick_Node_traverse_stop p fuel (node_of t) pre = Ret (take_stop p (map nd l)).
 Proof.
   intros Hf Ht. unfold Newick.traverse in Ht. unfold imp_newick_Node_traverse_stop. cbv zeta.
-  change (go_while fuel _ _ ([Imp_newick_traversalStep (node_of t) 0], []))
-    with (go_while fuel tr_cond (trs_body pre) (rev (map step_of [(([] : Newick.path), t, O)]), map nd (rev []))).
+  timeout 120 (change (go_while fuel _ _ ([Imp_newick_traversalStep (node_of t) 0], []))
+    with (go_while fuel tr_cond (trs_body pre) (rev (map step_of [(([] : Newick.path), t, O)]), map nd (rev [])))).
   change (after ?m _) with (after m trs_final).
   apply (trs_loop pre _ fuel _ _ _ Ht Hf). unfold may_go. cbn. lia.
 Qed.
